@@ -116,15 +116,15 @@ def _count_ops(trace):
             n += 1
     return n, ops
 
-def drive(tier, seed, features=(), release=False, extra_args=(), label="drive", small=False):
+def drive(tier, seed, features=(), release=False, extra_args=(), label="drive", small=False, shape="a"):
     feats = tuple(sorted(features))
-    key = key_of(label, repo_hash(), verif_hash(), tier, seed, feats, release, extra_args, small)
+    key = key_of(label, repo_hash(), verif_hash(), tier, seed, feats, release, extra_args, small, shape)
     c = cache_get(label, key)
     if c:
         c["cached"] = True
         return c
     t0 = time.time()
-    binp = build_harness(feats, release)
+    binp = build_harness(feats, release, shape)
     chunks, runs, steps = (5, 12, 60) if tier == "quick" else (16, 60, 70)
     if small:
         chunks, runs, steps = (2, 8, 50) if tier == "quick" else (4, 30, 60)
@@ -160,7 +160,7 @@ def drive(tier, seed, features=(), release=False, extra_args=(), label="drive", 
         n, ops = _count_ops(trace)
         res = {"seed": cseed, "events": n, "probes": int(m.group(2)) if m else 0, "ops": ops, "tlc": st, "outcomes": _outcome_stats(trace),
                "violations": _collect(trace, viol, {"engine": label, "seed": cseed, "runs": runs, "steps": steps,
-                                                   "features": list(feats), "release": release, "args": list(extra_args)}),
+                                                   "features": list(feats), "release": release, "args": list(extra_args), "shape": shape}),
                "samples": _sample_events(trace, 2) if i == 0 else []}
         if not viol:
             os.remove(trace)
